@@ -1,0 +1,39 @@
+// Copyright The gittuf Authors
+// SPDX-License-Identifier: Apache-2.0
+
+//go:build verif
+
+// gvc contracts (comment-only, read under the "verif" build tag).
+
+package migrations
+
+//@ # ---- C13: migrating a legacy rule file keeps everything a query can see ----
+//@ func [C13] MigrateTargetsMetadataV01ToV02 -> (n)
+//@   requires targetsMetadata != nil
+//@   # A-wfmeta: a decoded legacy rule file has a delegations object and no null rules (found: a rule file with
+//@   # "delegations": null or a null rule makes this function panic instead of being rejected)
+//@   inputassumed hasDelegations: targetsMetadata.Delegations != nil
+//@   inputassumed noNilRoles: forall i :: 0 <= i && i < len(targetsMetadata.Delegations.Roles) ==> targetsMetadata.Delegations.Roles[i] != nil
+//@   assigns fresh(tufv02.TargetsMetadata.*), fresh(tufv02.Delegations.*), fresh(tufv02.Delegation.*), fresh(elems *tufv02.Delegation), fresh(elems string), fresh(map map[string]tuf.Principal)
+//@   ensures freshResult: n != nil && fresh(n) && n.Delegations != nil && fresh(n.Delegations)
+//@   ensures sameVersion: n.Version == targetsMetadata.Version && n.Expires == targetsMetadata.Expires
+//@   ensures sameRuleCount: len(n.Delegations.Roles) == len(targetsMetadata.Delegations.Roles)
+//@   ensures sameRules: forall i :: 0 <= i && i < len(n.Delegations.Roles) ==> n.Delegations.Roles[i] != nil && n.Delegations.Roles[i].Name == targetsMetadata.Delegations.Roles[i].Name && n.Delegations.Roles[i].Paths == targetsMetadata.Delegations.Roles[i].Paths && n.Delegations.Roles[i].Terminating == targetsMetadata.Delegations.Roles[i].Terminating && n.Delegations.Roles[i].Threshold == targetsMetadata.Delegations.Roles[i].Threshold && n.Delegations.Roles[i].PrincipalIDs == targetsMetadata.Delegations.Roles[i].KeyIDs
+//@   ensures samePrincipals: forall k string :: has(n.Delegations.Principals, k) <==> has(targetsMetadata.Delegations.Keys, k)
+//@   ensures samePrincipalValues: forall k string :: has(n.Delegations.Principals, k) ==> n.Delegations.Principals[k] == toIfc(targetsMetadata.Delegations.Keys[k], tuf.Principal)
+//@   loop 1:
+//@     invariant shape: newTargetsMetadata != nil && fresh(newTargetsMetadata) && newTargetsMetadata.Delegations != nil && fresh(newTargetsMetadata.Delegations) && newTargetsMetadata.Delegations.Principals != nil && fresh(newTargetsMetadata.Delegations.Principals) && newTargetsMetadata.Version == targetsMetadata.Version && newTargetsMetadata.Expires == targetsMetadata.Expires && len(newTargetsMetadata.Delegations.Roles) == 0
+//@     invariant copied: forall k string :: has(newTargetsMetadata.Delegations.Principals, k) <==> (has(targetsMetadata.Delegations.Keys, k) && visited(k))
+//@     invariant copiedValues: forall k string :: has(newTargetsMetadata.Delegations.Principals, k) ==> newTargetsMetadata.Delegations.Principals[k] == toIfc(targetsMetadata.Delegations.Keys[k], tuf.Principal)
+//@   loop 2:
+//@     invariant shape: newTargetsMetadata != nil && fresh(newTargetsMetadata) && newTargetsMetadata.Delegations != nil && fresh(newTargetsMetadata.Delegations) && newTargetsMetadata.Delegations.Principals != nil && fresh(newTargetsMetadata.Delegations.Principals) && newTargetsMetadata.Version == targetsMetadata.Version && newTargetsMetadata.Expires == targetsMetadata.Expires
+//@     invariant count: len(newTargetsMetadata.Delegations.Roles) == rangeindex + 1
+//@     invariant copied: forall k string :: has(newTargetsMetadata.Delegations.Principals, k) <==> has(targetsMetadata.Delegations.Keys, k)
+//@     invariant copiedValues: forall k string :: has(newTargetsMetadata.Delegations.Principals, k) ==> newTargetsMetadata.Delegations.Principals[k] == toIfc(targetsMetadata.Delegations.Keys[k], tuf.Principal)
+//@     invariant rules: forall i :: 0 <= i && i <= rangeindex ==> newTargetsMetadata.Delegations.Roles[i] != nil && fresh(newTargetsMetadata.Delegations.Roles[i]) && newTargetsMetadata.Delegations.Roles[i].Name == targetsMetadata.Delegations.Roles[i].Name && newTargetsMetadata.Delegations.Roles[i].Paths == targetsMetadata.Delegations.Roles[i].Paths && newTargetsMetadata.Delegations.Roles[i].Terminating == targetsMetadata.Delegations.Roles[i].Terminating && newTargetsMetadata.Delegations.Roles[i].Threshold == targetsMetadata.Delegations.Roles[i].Threshold && newTargetsMetadata.Delegations.Roles[i].PrincipalIDs == targetsMetadata.Delegations.Roles[i].KeyIDs
+
+//@ # root metadata migration: assumed for now (used by the policy readers through rootMD)
+//@ func MigrateRootMetadataV01ToV02 -> (n)
+//@   trusted
+//@   assigns fresh(tufv02.RootMetadata.*), fresh(tufv02.MultiRepository.*), fresh(tufv02.OtherRepository.*), fresh(elems *tufv02.OtherRepository), fresh(map map[string]tuf.Principal), fresh(map map[string]tufv02.Role)
+//@   ensures n != nil && fresh(n) && n.Version == rootMetadata.Version
